@@ -23,6 +23,7 @@ import itertools
 import json
 import os
 import shutil
+import sys
 import tempfile
 
 import vlib
@@ -823,7 +824,10 @@ def run(rep, tier, seed, deep=False):
         "io.FileIO on a regular Linux file is the reference ('a Python io file opened in that mode'); IoRef restates it and is validated against it on every run",
         "exceptions are compared by family: not-permitted (UnsupportedOperation/OSError), invalid argument (ValueError/OSError EINVAL), closed (ValueError ... closed)",
         "readlines(hint), read(n<-1), whence outside 0..2, non-bytes arguments, two handles on one file, text mode layers (see C02) are not explored",
-        "FTPFS file objects are out of scope of this package (needs a server)",
+        "FTPFS file objects (thorough tier only): FTPFile against io.FileIO on a loopback pyftpdlib 1.5.10 server (MLSD and LIST variants), "
+        "all call sequences of length <=2 and 12 000 sampled of length 3 over a 25-call alphabet; exact agreement is required except in the "
+        "enumerated deviation classes of findings/C16-ftpfs-ftpfile.md (one open finding each, recognised from the first differing call and "
+        "the reference state before it); connection errors are infrastructure (retried on a new server)",
         "documented tolerance (either behaviour satisfies the property text): readline(0) on a closed or unreadable handle (io.FileIO returns b'' without touching the file, MemoryFS rejects it); writelines([]) on a read-only handle (io.FileIO accepts the vacuous call, MemoryFS rejects it)",
     ]
     T = Targets()
@@ -832,6 +836,11 @@ def run(rep, tier, seed, deep=False):
         check_bio(rep, drv, T, vlib.rng_for(seed, "c16-bio"), nbio)
         rep.extra["exhaustive_sessions"] = len(REGRESSIONS) + sum(1 for _ in exhaustive(1 if quick else 2, 1 if quick else 3))
         run_sessions(rep, tier, seed, deep)
+        if not quick:
+            # FTPFile (fs/ftpfs.py) against io.FileIO on a loopback pyftpdlib server, MLSD and LIST variants
+            from props import _ftpfile
+            _ftpfile.run_ftp(sys.modules[__name__], rep, seed, deep)
+            targets = targets + ["ftp", "ftp-nomlsd"]
         rep.extra["targets"] = ["fileio(oracle)", "bytesio"] + targets
         rep.extra["exhaustive"] = True
         for m, i, o in REGRESSIONS[:3]:
@@ -854,6 +863,9 @@ def replay(rep, case):
         ops = ops_from_case(c)
         ioref, memfile, dev = drv.batch(requests(c["mode"], init, ops))
         target = c["target"]
+        if target in ("ftp", "ftp-nomlsd"):
+            from props import _ftpfile
+            return _ftpfile.replay(sys.modules[__name__], T, c)
         impl = T.run(target, c["mode"], init, ops)
         ref = T.run("fileio" if target != "osbuf" else "pybuf", c["mode"], init, ops)
         print("calls     :", [tok(o) for o in ops])
